@@ -27,7 +27,7 @@ pub fn body_facts<'tcx>(tcx: TyCtxt<'tcx>, owner: LocalDefId) -> J {
         j.put("expn", J::Bool(true));
     }
     if matches!(kind, DefKind::Fn | DefKind::AssocFn) {
-        j.put("vis", J::s(format!("{:?}", tcx.visibility(did))));
+        j.put("vis", J::s(crate::vis_str(tcx, tcx.visibility(did))));
         let sig = tcx.fn_sig(did).instantiate_identity().skip_norm_wip().skip_binder();
         j.put("sig", J::s(format!("{}", sig)));
         j.put("unsafe_fn", J::Bool(sig.safety().is_unsafe()));
